@@ -150,6 +150,29 @@ PROPS = {
         "level_text": "Theorems C13_owned (ledger invariant preserved by every handler on every exit path) and C13_released (for every input stream and "
                       "world, every handle opened for the connection is closed when it ends), over the session model with explicit open/close counters.",
     },
+    "C15": {
+        "jobs": [{"cmd": "admit", "quick": 120, "thorough": 4000, "timeout": 3000}],
+        "rule": "the real netutil.LimitListener + iprange.FilterListener stack (wired in the order read from cmd/ps3netsrv-go/server.go) over an in-memory "
+                "listener whose connections carry scripted peer addresses in 127.0.0.0/8 and ::1; limits 0..4 (0..8 thorough), 9 whitelist specs, random "
+                "arrival/close orders of up to 4N+2 clients; after every event the state of every connection (served / rejected / waiting) is compared "
+                "with the model; non-trivial = at least 4 events",
+        "assumptions": ["the semaphore of netutil.LimitListener is modelled as a counter", "whitelist verdicts of arrivals come from the C14 oracle"],
+        "partial": ["kernel backlog and scheduler fairness cannot be exhibited by the model; the real binary with --max-clients/--client-whitelist is exercised by C19's job"],
+        "level_text": "Theorems C15_bound (served <= N for every history), C15_filter (only whitelisted arrivals are served; rejected ones were never handed to the "
+                      "server), C15_conserve (slots = served + waiting loop), C15_progress (waiting arrivals imply the limit is reached), C15_wiring, over a "
+                      "transition system of the listener stack.",
+    },
+    "C16": {
+        "jobs": [{"cmd": "timed", "quick": 36, "thorough": 400, "timeout": 3000}],
+        "rule": "timing scripts against the real server with ReadTimeout T over net.Pipe: silent after connect, after k requests, stalled after 5 of 16 command bytes, "
+                "inside a path, inside an upload payload, pipelined requests, long-lived sessions of 20-40 requests; gaps are <= 0.6 T or silence; the cut is "
+                "expected in [T-30ms, T+max(150ms, T/2)] after the last handled request; non-trivial = at least 2 requests or a stall",
+        "assumptions": ["net.Conn read deadlines make a pending Read fail at the deadline", "handling a request takes no logical time"],
+        "partial": ["real clocks, goroutine exit and net.Conn deadline semantics are runtime behaviour: observed with tolerances, not part of the theorem"],
+        "level_text": "Theorems C16_alive_then_cut (every request sequence of any length whose requests complete within T of the previous one is handled in full, the "
+                      "deadline in force is always the re-armed one, and silence is cut exactly T after the last handled request), C16_late, C16_stalled, C16_off, "
+                      "over a logical-clock model of the connection loop built on the byte-level parser.",
+    },
     "C17": {
         "jobs": [sess_job(60, 1500, keep_ops=["open_file", "read_cd"]),
                  {"cmd": "cdsess", "quick": 8, "thorough": 400, "timeout": 6000, "project": sess_project(keep_ops=["open_file", "read_cd"])}],
